@@ -1,2 +1,8 @@
 import FparserModel.Py
 import FparserModel.Wire
+import FparserModel.Splitline
+import FparserModel.SourceInfo
+import FparserModel.Generated.TokenLex
+import FparserModel.Props.Splitline
+import FparserModel.Props.SplitlineSrm
+import FparserModel.Props.SourceInfo
